@@ -254,6 +254,11 @@ impl Scenario for Discover {
                 // the root directory itself is named like an ignored one
                 locations.push(vec!["work".into(), format!("={}", rng.pick(&hostile_names))]);
             }
+            if rng.chance(350) {
+                // the workspace is reached through a symbolic link (the tree itself lives under store/), the link's
+                // directory is neutral or named like an ignored one
+                locations.push(vec!["store".into(), format!("@{}", rng.pick(&["links", "build", "env", "x.egg-info", "my-site-packages"]))]);
+            }
         }
         let mut sim = SimParams::gen(&mut rng, 3000);
         sim.max_steps = 20_000_000;
@@ -281,7 +286,17 @@ impl Scenario for Discover {
         let sb = Sandbox::acquire(if self.faults { "c13f" } else { "c13r" }, inp.run_seed, inp.sandbox.as_deref().map(Path::new));
         let mut spec = inp.spec.clone();
         if !inp.excludes.is_empty() {
-            spec.extra.push(("pyproject.toml".into(), format!("[tool.pytest-language-server]\nexclude = {:?}\n", inp.excludes)));
+            // in a third of the runs the neighbouring settings are mistyped (a non-string entry, a string instead of a list,
+            // an unknown code): each is ignored on its own, the exclude patterns stay in effect
+            let neighbours = match inp.run_seed % 6 {
+                0 => "skip_plugins = [\"pytest-xdist\", 3]\n",
+                1 => "fixture_paths = \"fixtures/\"\ndisabled_diagnostics = [\"undeclared-fixture\", 7, \"no-such-code\"]\n",
+                _ => "",
+            };
+            if !neighbours.is_empty() {
+                out.count("fault.pyproject_mistyped_neighbour_setting", 1);
+            }
+            spec.extra.push(("pyproject.toml".into(), format!("[tool.pytest-language-server]\nexclude = {:?}\n{}", inp.excludes, neighbours)));
         }
         out.fingerprint = fnv(&serde_json::to_string(&(&inp.spec, &inp.locations, &inp.excludes, &inp.faults, &inp.adversary)).unwrap());
         let model = model_discovered(&inp.spec, &inp.excludes);
@@ -293,9 +308,19 @@ impl Scenario for Discover {
         for (loc, with_faults) in runs {
             let _ = std::fs::remove_dir_all(sb.root());
             // an element "=name" names the workspace root directory itself
-            spec.ancestors = loc.iter().filter(|a| !a.starts_with('=')).cloned().collect();
+            spec.ancestors = loc.iter().filter(|a| !a.starts_with('=') && !a.starts_with('@')).cloned().collect();
             spec.root_name = loc.iter().find(|a| a.starts_with('=')).map(|a| a[1..].to_string());
             let root = spec.materialise(&sb.root());
+            // an element "@name": the scan is given <sandbox>/name/lnk, a symbolic link to the root
+            let mut scan_root = root.clone();
+            if let Some(l) = loc.iter().find(|a| a.starts_with('@')) {
+                let ld = sb.root().join(&l[1..]);
+                let _ = std::fs::create_dir_all(&ld);
+                if std::os::unix::fs::symlink(&root, ld.join("lnk")).is_ok() {
+                    scan_root = ld.join("lnk");
+                    out.count("fault.workspace_root_is_a_symbolic_link", 1);
+                }
+            }
             if inp.ancestor_decoy && !self.faults {
                 // `from decoy_helper import *` in the root conftest: nothing under the root provides it
                 let cp = root.join("conftest.py");
@@ -339,7 +364,9 @@ impl Scenario for Discover {
             if hit > 0 {
                 out.nontrivial = true;
             }
-            let r2 = root.clone();
+            let r2 = scan_root.clone();
+            // index keys are canonical paths: relative names are taken against the real root
+            let real_root = root.clone();
             let (oc, res) = simrt::run(inp.sim.cfg(replay_list(input, k)), move || {
                 let db = Arc::new(FixtureDatabase::new());
                 let cfg = crate::config::Config::load(&r2);
@@ -355,8 +382,8 @@ impl Scenario for Discover {
                 for h in hs {
                     h.join();
                 }
-                let files: BTreeSet<String> = db.file_cache.iter().map(|e| rel(&r2, e.key())).collect();
-                (files, map_snap(&db, &r2))
+                let files: BTreeSet<String> = db.file_cache.iter().map(|e| rel(&real_root, e.key())).collect();
+                (files, map_snap(&db, &real_root))
             });
             k += 1;
             out.absorb_outcome(&oc);
